@@ -28,6 +28,7 @@ type Session struct {
 	Table Table
 	Ad    Adapter
 
+	Variant int // per-behaviour variant selector (flush thresholds etc.)
 	clock   int
 	after   []int64           // after[k]: a real instant at which the spec clock was k
 	commit  map[int]int64     // commit[k]: real commit time of the write that moved the clock to k
